@@ -84,6 +84,7 @@ func record(c *splitCase, v *verdict) {
 	if c.RunStart > 0 {
 		labels = append(labels, "runstart>0")
 	}
+	labels = append(labels, sizeLabels(c, v)...)
 	if di.Direction(c.Direction).IsVertical() {
 		labels = append(labels, "vertical")
 	}
@@ -99,6 +100,46 @@ func record(c *splitCase, v *verdict) {
 	for _, id := range v.excluded {
 		ev.Excluded(id)
 	}
+}
+
+// sizeLabels classifies the case by the sizes that internal bounds depend on: the deepest
+// nesting of still-open brackets in the range, the number of output runs, of paragraphs, the length.
+func sizeLabels(c *splitCase, v *verdict) (labels []string) {
+	depth, maxDepth, paras := 0, 0, 0
+	for i := c.RunStart; i < c.RunEnd && i < len(c.Text); i++ {
+		r := c.Text[i]
+		if _, ok := trueOpen[r]; ok {
+			depth++
+			if depth > maxDepth {
+				maxDepth = depth
+			}
+		} else if _, ok := trueClose[r]; ok && depth > 0 {
+			depth--
+		} else if isClassB(r) {
+			paras++
+		}
+	}
+	for _, b := range []int{16, 32, 33, 64, 65, 128} {
+		if maxDepth >= b {
+			labels = append(labels, fmt.Sprintf("open_brackets>=%d", b))
+		}
+	}
+	for _, b := range []int{20, 100, 300} {
+		if v.nRuns >= b {
+			labels = append(labels, fmt.Sprintf("runs>=%d", b))
+		}
+	}
+	for _, b := range []int{10, 50} {
+		if paras >= b {
+			labels = append(labels, fmt.Sprintf("paragraphs>=%d", b))
+		}
+	}
+	for _, b := range []int{100, 300} {
+		if c.RunEnd-c.RunStart >= b {
+			labels = append(labels, fmt.Sprintf("range_len>=%d", b))
+		}
+	}
+	return
 }
 
 func sample(c *splitCase, v *verdict) {
@@ -129,6 +170,19 @@ func TestPropSplit(t *testing.T) {
 		}
 		checkSplit(t, genCase(t, shape))
 	})
+}
+
+// TestPropDeep: deep well-nested bracket structures (depth up to ~130, with weight on 31/32/33,
+// 63/64/65, ...) with script changes between openers and closers at various depths.
+func TestPropDeep(t *testing.T) {
+	loadFaces()
+	rapid.Check(t, func(t *rapid.T) { checkSplit(t, genCase(t, shapeDeep)) })
+}
+
+// TestPropLong: long texts (80..600 runes) with many runs, paragraphs and long neutral stretches.
+func TestPropLong(t *testing.T) {
+	loadFaces()
+	rapid.Check(t, func(t *rapid.T) { checkSplit(t, genCase(t, shapeLong)) })
 }
 
 // checkHistory is the reuse machine body (shared with replay).
@@ -171,10 +225,14 @@ func TestPropReuse(t *testing.T) {
 		h := &histCase{}
 		for i := 0; i < n; i++ {
 			shape := 0
-			switch k := rapid.IntRange(0, 9).Draw(t, "shape"); {
-			case k >= 8:
+			switch k := rapid.IntRange(0, 19).Draw(t, "shape"); {
+			case k == 19:
+				shape = shapeLong
+			case k >= 17:
+				shape = shapeDeep
+			case k >= 13:
 				shape = 2
-			case k >= 5:
+			case k >= 8:
 				shape = 1
 			}
 			h.Steps = append(h.Steps, *genCase(t, shape))
@@ -249,6 +307,147 @@ func TestEnumSmall(t *testing.T) {
 	ev.CaseEnum(total, nt)
 	ev.LabelN("enum_case", total)
 }
+
+// ---------------------------------------------------------------------------------------------
+// size-scaling enumerators: every depth / count up to a bound, on templates whose expected
+// behaviour does not depend on the size (so that any internal bound or counter shows)
+
+func enumRun(t *testing.T, seg *shaping.Segmenter, text []rune, start, end int, d di.Direction, f fmSpec, total, nt *int64) {
+	c := &splitCase{Text: text, RunStart: start, RunEnd: end, Direction: uint8(d), Language: "", Size: 640, InputFace: -1, Fontmap: f}
+	v, _ := runOne(seg, c)
+	*total++
+	if v.nontrivial(c) {
+		*nt++
+	}
+	for _, id := range v.excluded {
+		ev.Excluded(id)
+	}
+	for _, l := range sizeLabels(c, &v) {
+		ev.Label(l)
+	}
+	if v.clause != "" {
+		ev.Fail(t, "split", c.decorate(), "%s: %s\ncase: %+q [%d,%d) dir=%s fontmap=%+v", v.clause, v.msg, string(text), start, end, dirString(d), f)
+	}
+}
+
+func rep(n int, rs ...rune) []rune {
+	out := make([]rune, 0, n*len(rs))
+	for i := 0; i < n; i++ {
+		out = append(out, rs...)
+	}
+	return out
+}
+
+func cat(parts ...[]rune) []rune {
+	var out []rune
+	for _, p := range parts {
+		out = append(out, p...)
+	}
+	return out
+}
+
+// TestEnumDepth: every nesting depth 1..maxDepth on four templates x {LTR, RTL} x with/without
+// leading context.
+func TestEnumDepth(t *testing.T) {
+	loadFaces()
+	shard, nshards := ev.Shard()
+	maxDepth := ev.Scale(140, 300)
+	seg := new(shaping.Segmenter)
+	var total, nt int64
+	words := [][]rune{[]rune("a"), {0x03B1}, {0x0416}, {0x4E2D}, {0x05D0}}
+	opens := []rune{'(', '[', '{', 0x300C, 0xFF08}
+	closes := []rune{')', ']', '}', 0x300D, 0xFF09}
+	fm := fmSpec{Kind: 1, K: 0, WithScript: true}
+	for d := 1; d <= maxDepth; d++ {
+		if d%nshards != shard {
+			continue
+		}
+		var texts [][]rune
+		// (1) one outer pair in a Latin context around d-1 pairs opened in a Greek context
+		texts = append(texts, cat([]rune("x ["), []rune{0x03B1, ' '}, rep(d-1, '('), []rune{0x03B2}, rep(d-1, ')'), []rune{' ', 0x03B3, ']', ' ', 'y'}))
+		// (2) a change of script and of bracket kind at every level (left-to-right scripts)
+		// (3) the same with a right-to-left script among them
+		for _, nw := range []int{4, 5} {
+			var tx []rune
+			for i := 0; i < d; i++ {
+				tx = append(tx, words[i%nw]...)
+				tx = append(tx, opens[i%len(opens)])
+			}
+			tx = append(tx, words[d%nw]...)
+			for i := d - 1; i >= 0; i-- {
+				tx = append(tx, closes[i%len(closes)])
+				tx = append(tx, words[(i+2)%nw]...)
+			}
+			texts = append(texts, tx)
+		}
+		// (4) d sibling pairs inside one pair: many pushes, two open at most
+		texts = append(texts, cat([]rune("a("), rep(d, '(', 0x0416, ')'), []rune{0x0416, ')', 'a'}))
+		for _, tx := range texts {
+			for _, dir := range []di.Direction{di.DirectionLTR, di.DirectionRTL} {
+				enumRun(t, seg, tx, 0, len(tx), dir, fm, &total, &nt)
+			}
+			ctx := cat([]rune("(("), tx, []rune("))"))
+			enumRun(t, seg, ctx, 2, 2+len(tx), di.DirectionLTR, fm, &total, &nt)
+		}
+	}
+	ev.CaseEnum(total, nt)
+	ev.LabelN("enum_depth_case", total)
+}
+
+// TestEnumScale: every count n = 1..maxN of script changes, direction changes, paragraphs, face
+// changes, orientation changes, and every length of a neutral stretch.
+func TestEnumScale(t *testing.T) {
+	loadFaces()
+	shard, nshards := ev.Shard()
+	maxN := ev.Scale(320, 1100)
+	seg := new(shaping.Segmenter)
+	var total, nt int64
+	seps := []rune{0x2029, '\n', 0x0085, '\r', 0x001C}
+	byScript := fmSpec{Kind: 1, K: 0, WithScript: true}
+	byRune := fmSpec{Kind: 2, K: 1, WithScript: false}
+	unsetTTB := di.DirectionTTB
+	for n := 1; n <= maxN; n++ {
+		if n%nshards != shard {
+			continue
+		}
+		var paras []rune
+		for i := 0; i < n; i++ {
+			if i%3 != 2 { // every third paragraph is empty
+				paras = append(paras, words3[i%3]...)
+			}
+			paras = append(paras, seps[i%len(seps)])
+		}
+		type tc struct {
+			text []rune
+			fm   fmSpec
+			dirs []di.Direction
+		}
+		hv := []di.Direction{di.DirectionLTR, di.DirectionRTL}
+		cases := []tc{
+			{rep(n, 'a', 0x0416), byScript, hv},                                              // 2n script runs
+			{rep(n, 'a', 0x05D0), byScript, hv},                                              // 2n direction runs
+			{rep(n, 'a', ' ', 0x05D0, '1'), byRune, hv},                                      // directions, digits, faces
+			{paras, byScript, hv},                                                            // n paragraphs
+			{cat([]rune("a"), rep(n, ' '), []rune{0x05D0}), byRune, hv},                      // neutral stretch
+			{cat([]rune{0x05D0}, rep(n, '1', ','), []rune("a")), byScript, hv},               // digits
+			{cat([]rune("a"), rep(n, 0x0301), []rune{0x0416}, rep(n, 0x0301)), byScript, hv}, // marks
+			{rep(n, 'a', 'b', 'c'), byRune, hv},                                              // 3n face runs
+			{rep(n, 'a', 0xFF21, 0x4E2D, 0xFF71), byScript, []di.Direction{unsetTTB}},        // orientation changes
+		}
+		for _, c := range cases {
+			for _, dir := range c.dirs {
+				enumRun(t, seg, c.text, 0, len(c.text), dir, c.fm, &total, &nt)
+			}
+			if len(c.text) > 4 {
+				enumRun(t, seg, c.text, 1, len(c.text)-2, di.DirectionLTR, c.fm, &total, &nt)
+			}
+		}
+	}
+	ev.CaseEnum(total, nt)
+	ev.LabelN("enum_scale_case", total)
+}
+
+var words3 = [][]rune{[]rune("ab"), {0x05D0, 0x05D1}, {0x0416}}
 
 // ---------------------------------------------------------------------------------------------
 // SplitByFace alone
